@@ -252,6 +252,36 @@ def minor_version_histories():
         yield {"family": "minor-versions", "a": la, "b": lb}, [sa, sb]
 
 
+# Several minor versions of one type in ONE call, one of them edited between the calls (same file paths): a verdict remembered
+# per file set / per name would survive the edit.
+MINOR_EDITS = [
+    "uint8 a\nuint8 b\n@extent 64\n",
+    "uint8 a\n@extent 64\n",
+    "uint8 a\n@extent 128\n",
+    "uint8 a\n@sealed\n",
+    "uint8 a\n@extent 64\n---\n@sealed\n",
+    "@union\nuint8 a\nuint16 b\n@extent 64\n",
+    "@deprecated\nuint8 a\n@extent 64\n",
+]
+
+
+def minor_version_edit_histories():
+    def step(where, rev, op):
+        files = {"%s/X.1.0.dsdl" % where: "uint8 a\n@extent 64\n", "%s/X.1.1.dsdl" % where: MINOR_EDITS[rev], "%s/X.1.2.dsdl" % where: "uint8 a\nuint8 b\nuint8 c\n@extent 64\n"}
+        files["qqa/User.1.0.dsdl"] = "%s.X.1.0 p\n%s.X.1.1 q\n@sealed\n" % (where, where) if op != "rf-one" else "%s.X.1.1 q\n@sealed\n" % where
+        st = {"files": files, "op": "rn" if op == "rn" else "rf", "root": "qqa", "lookups": ["qql"]}
+        if op != "rn":
+            st["targets"] = ["qqa/User.1.0.dsdl"]
+        return st
+
+    for where in ("qqa", "qql"):
+        for op in ("rn", "rf", "rf-one"):
+            for i, j in itertools.permutations(range(len(MINOR_EDITS)), 2):
+                yield {"family": "minor-version-edits", "where": where, "op": op, "a": i, "b": j, "same_dir": True}, [step(where, i, op), step(where, j, op)]
+            for i, j in ((0, 2), (1, 3), (0, 4)):
+                yield {"family": "minor-version-edits", "where": where, "op": op, "a": i, "b": j, "c": i, "same_dir": True}, [step(where, i, op), step(where, j, op), step(where, i, op)]
+
+
 # One list object of lookup directories handed to several calls with different roots (an application that keeps its lookup list)
 def shared_argument_histories():
     files = {"qqa/A.1.0.dsdl": "uint8 a\n@sealed\n", "qqb/B.1.0.dsdl": "qqa.A.1.0 a\n@sealed\n", "qqb/C.1.0.dsdl": "qql.L.1.0 l\n@sealed\n", "qql/L.1.0.dsdl": "@sealed\n", "qqa/D.1.0.dsdl": "qqb.C.1.0 c\n@sealed\n"}
@@ -290,6 +320,7 @@ FAMILIES = {
     "wide-revisions": wide_revision_histories,
     "shared-arguments": shared_argument_histories,
     "minor-versions": minor_version_histories,
+    "minor-version-edits": minor_version_edit_histories,
     "nested-revisions": nested_revision_histories,
     "faults": fault_histories,
     "flags": flag_histories,
